@@ -394,3 +394,34 @@ contract(G + 'GeomCoverage._geom_in_coverage_srs', props=['C10', 'C17'],
          opaque_spec={'transform_to': {'pure': True}, 'transform_bbox_to': {'pure': True}, 'transform_geometry': {'pure': True},
                       'Point': {'pure': True}, 'bbox_polygon': {'pure': True}},
          trace=[_in_coverage_srs])
+
+
+# ---- C14: pruning of layers hidden below an opaque layer (loop 0 of WMSServer.map) ------------------------------------------------
+def _prune_only_below_opaque(ex, st, k):
+    """the collected layers are thrown away only when the layer of this iteration renders the query AND declares itself
+    opaque for exactly this query; its own sub-layers are added afterwards"""
+    import z3
+    evs_ = st.trace[getattr(st, 'iter_start_trace', 0):]
+    resets = [(i, e) for i, e in enumerate(evs_) if e.name == 'odict']
+    rq = [(i, e) for i, e in enumerate(evs_) if e.name == 'renders_query']
+    op = [(i, e) for i, e in enumerate(evs_) if e.name == 'is_opaque']
+    ml = [(i, e) for i, e in enumerate(evs_) if e.name == 'map_layers_for_query']
+    q = st.env['query']
+    goal = z3.BoolVal(len(rq) == 1 and rq[0][1].args[-1] is q and len(resets) <= 1)
+    if ml:
+        goal = z3.And(goal, ex.truth(st, rq[0][1].result) if rq else z3.BoolVal(False), z3.BoolVal(ml[0][1].args[-1] is q))
+    if resets:
+        ok = len(op) == 1 and op[0][1].args[-1] is q and op[0][1].recv is not None and rq and op[0][1].recv.t.eq(rq[0][1].recv.t) \
+            and op[0][0] < resets[0][0] and bool(ml) and resets[0][0] < ml[0][0]
+        goal = z3.And(goal, z3.BoolVal(bool(ok)))
+        if ok:
+            goal = z3.And(goal, ex.truth(st, op[0][1].result), ex.truth(st, rq[0][1].result))
+    yield ('layers_pruned_only_below_opaque_layer', goal,
+           'actual_layers is reset only if THIS layer renders the query and layer.is_opaque(query) is true; the layer itself is '
+           'added after the reset (so it stays), a layer that does not render the query adds and removes nothing')
+
+
+from pyvc.api import REG as _REG  # noqa
+_c = _REG.contracts[WMS + 'WMSServer.map']
+_c['props'] = sorted(set(_c['props']) | {'C14'})
+_REG.loops[(WMS + 'WMSServer.map', 0)]['body_trace'] = [_prune_only_below_opaque]
